@@ -36,12 +36,19 @@ func genC29(r *simkit.Rand, tier string, race bool) *simkit.Plan {
 	} else {
 		p.Arm = "sequential"
 	}
+	// forky histories: two nonces per shard, so most nonces hold several competing headers
+	nNonces := 7
+	if r.Chance(0.4) {
+		nNonces = 2
+		w[1] += 3
+		w[4] += 3
+	}
 	for i := 0; i < n; i++ {
 		st := simkit.Step{Op: c29ops[r.Weighted(w)], T: r.Intn(threads)}
 		// shard 2 is never added to; lookups use all three
 		h := r.Intn(nHashes)
 		shardOfHash := int64(h % 2)
-		nonceOfHash := int64((h / 2) % 7)
+		nonceOfHash := int64((h / 2) % nNonces)
 		if r.Chance(0.1) {
 			nonceOfHash = int64(r.Intn(7)) // same hash re-added with another nonce
 		}
@@ -51,7 +58,10 @@ func genC29(r *simkit.Rand, tier string, race bool) *simkit.Plan {
 		case "removeByHash", "getByHash":
 			st.I = []int64{int64(h)}
 		case "removeByNonce", "getByNonce":
-			st.I = []int64{int64(r.Intn(7)), int64(r.Intn(3))}
+			st.I = []int64{int64(r.Intn(nNonces)), int64(r.Intn(3))}
+			if nNonces == 2 && r.Chance(0.7) {
+				st.I[1] = int64(r.Intn(2))
+			}
 		case "nonces", "numHeaders":
 			st.I = []int64{int64(r.Intn(3))}
 		}
